@@ -280,6 +280,14 @@ func init() {
 				free = append(free, refaddr.EncodeBIP276(refaddr.BIP276{Prefix: scheme, Version: 1, Network: 1, Data: data}))
 			}
 		}
+		// well-formed bitcoin-script: texts (carrying a P2PKH script or anything else): an address
+		// for ValidateAddress only; and the same text with its own checksum digits repeated behind it
+		for _, data := range [][]byte{c15Canonical(bytes.Repeat([]byte{0x22}, 20)), {0x51}, bytes.Repeat([]byte{0xab}, 33)} {
+			for _, vn := range []int{1, 2} {
+				t := refaddr.EncodeBIP276(refaddr.BIP276{Prefix: "bitcoin-script", Version: vn, Network: vn, Data: data})
+				free = append(free, t, t+t[len(t)-8:], t+"00"+t[len(t)-8:], t+hex.EncodeToString(data)+t[len(t)-8:])
+			}
+		}
 		for i, s := range free {
 			if c.Case(uint64(i)) {
 				str(c, &c15Str{S: s, Class: "free-form"})
@@ -601,7 +609,17 @@ func c15JudgeStr(c *mon.Ctx, in *c15Str) {
 	var ok bool
 	var err error
 	if c.Try("bscript.ValidateAddress", func() { ok, err = bscript.ValidateAddress(s) }) {
-		judge("ValidateAddress", ok && err == nil, "", nil)
+		if strings.HasPrefix(s, "bitcoin-script:") {
+			// the one other form ValidateAddress documents: valid exactly when it is a BIP276 text
+			// (C17 judges that relation in depth); every OTHER entry point below must refuse it
+			_, rerr := refaddr.DecodeBIP276(s)
+			c.Count("neg:bitcoin-script-text")
+			if (ok && err == nil) != (rerr == nil) {
+				c.Violationf("C15:ValidateAddress-differs-on-bitcoin-script-text", "ValidateAddress(%q) = %v, %v; as a BIP276 text the reference decoder says %v", s, ok, err, rerr)
+			}
+		} else {
+			judge("ValidateAddress", ok && err == nil, "", nil)
+		}
 	}
 	var a *bscript.Address
 	if c.Try("bscript.NewAddressFromString", func() { a, err = bscript.NewAddressFromString(s) }) {
